@@ -42,7 +42,26 @@ def gen_asts(ctx, rng):
         return T.L([tree(d - 1), tree(d - 1)])
     for _ in range(ctx.pick(2500, 30000)):
         out.append(tree(3))
+    # control operators nested in each other and inside compounds, lists, operators and clause bodies (the printer has
+    # dedicated code for conjunctions and disjunctions)
+    a, b, c = T.A("a"), T.A("b"), T.A("c")
+    ctl = [",", ";", "->"]
+    inner = [a] + [T.Cm(o, b, c) for o in ctl]
+    mids = [T.Cm(o, x, y) for o in ctl for x in inner for y in inner]
+    mids += [T.Cm(o, T.Cm(o2, a, T.Cm(o3, b, c)), a) for o in ctl for o2 in ctl for o3 in ctl]
+    mids += [T.Cm(o, a, T.Cm(o2, b, T.Cm(o3, c, a))) for o in ctl for o2 in ctl for o3 in ctl]
+    for m in mids:
+        out.append(m)
+        out.append(T.Cm("f", m))
+        out.append(T.Cm("findall", T.V(1), m, T.V(2)))
+        out.append(T.L([m, a]))
+        out.append(T.Cm("\\+", m))
+        out.append(T.Cm("=", T.V(1), m))
+        out.append(T.Cm("is", m, a))
     clauses = []
+    for m in mids:
+        clauses.append(T.Cm(":-", T.Cm("h", a), m))
+        clauses.append(T.Cm(":-", T.Cm("h", a), T.Cm(",", T.Cm("call", m), T.Cm("\\+", m))))
     for _ in range(ctx.pick(500, 6000)):
         head = T.Cm("h", rng.choice(LEAVES[:12]))
         body = tree(2)
@@ -96,6 +115,15 @@ def run(ctx):
     rng = random.Random(ctx.seed + 1717)
     A = gen_asts(ctx, rng)
     cases = [{"id": i, "text": paren(t), "clause": cl} for i, (t, cl) in enumerate(A)]
+    # number literals in every lexical form (valid and nearly valid), alone and inside terms: no AST, the checks are
+    # 'parses or ParseError' and 'what was parsed survives print / re-parse'
+    LIT = ["0x1e", "0xE", "0xdeadbeef", "0xAB", "0x10", "0xff", "0X1E", "0x", "0xg", "0x1.5", "1e", "1e5", "1.0e5", "1.5E-3", "1.e5",
+           "2.5e+3", "0.5e", "1E5", "0'a", "0' ", "0b101", "0o17", "1_000", "1.2.3", "00012", "007", ".5", "5.", "1.0Inf", "inf", "nan",
+           "1e400", "123456789012345678901234567890", "0.000000000000000000001", "1.0e-400", "-0x1e", "- 0x1e", "-1e5", "0xe+1", "1e5e5"]
+    for lit in LIT:
+        for ctx_t in ("f(%s)", "[%s, a]", "X is %s + 1", "%s", "g(a, %s) = Y", "%s < 0xe"):
+            A.append((None, False))
+            cases.append({"id": len(cases), "text": ctx_t % lit, "clause": False, "lit": lit})
     chunk = 150
     res = pl.run_jobs([("print_parse", {"cases": cases[i:i + chunk]}) for i in range(0, len(cases), chunk)],
                       nproc=ctx.nproc, timeout=300, chunksize=1)
@@ -112,13 +140,23 @@ def run(ctx):
                 continue
             if o.get("crash"):
                 ctx.violation({"clause": "crash", "error": o["error"], "site": o.get("site", "")},
-                              "printing / re-parsing %s: %s" % (json.dumps(t)[:300], o["crash"]), {"ast": t, "clause": A[o["id"]][1]})
+                              "parsing / printing / re-parsing %r: %s" % (cases[o["id"]]["text"], o["crash"]),
+                              {"ast": t, "clause": A[o["id"]][1], "text": cases[o["id"]]["text"]})
+                continue
+            if t is None:
+                if o["ok"] == 1:
+                    send.append({"id": 2 * o["id"] + 1, "kind": "variant", "x": o["first"], "y": o["back"]})
+                elif o["stage"] != "parse1":
+                    ctx.violation(dict(clause="printed-text-does-not-parse", shape="literal"),
+                                  "text %r; stage %s; printed %r; %s" % (cases[o["id"]]["text"], o["stage"], o.get("text"), o.get("err")),
+                                  {"ast": None, "clause": False, "text": cases[o["id"]]["text"]})
                 continue
             if o["ok"] != 1:
                 cl = {"parse1": "valid-text-rejected", "print": "print-failed", "parse2": "printed-text-does-not-parse"}[o["stage"]]
-                ctx.violation(dict(shape_triggers(t), clause=cl, op=opsig(t), inner=inner_ops(t)),
-                              "text %r; stage %s; printed %r; %s" % (cases[o["id"]]["text"], o["stage"], o.get("text"), o.get("err")),
-                              {"ast": t, "clause": A[o["id"]][1], "text": cases[o["id"]]["text"]})
+                for edge in (o.get("shape", "") or "?").split("|"):
+                    ctx.violation(dict(clause=cl, shape=edge if cl != "valid-text-rejected" else "-"),
+                                  "text %r; stage %s; printed %r; %s; smallest failing subterm: %s" % (cases[o["id"]]["text"], o["stage"], o.get("text"), o.get("err"), o.get("shape")),
+                                  {"ast": t, "clause": A[o["id"]][1], "text": cases[o["id"]]["text"]})
                 continue
             send.append({"id": 2 * o["id"], "kind": "variant", "x": t, "y": o["first"]})
             send.append({"id": 2 * o["id"] + 1, "kind": "variant", "x": o["first"], "y": o["back"]})
@@ -128,15 +166,20 @@ def run(ctx):
             i = c["id"] // 2
             t = A[i][0]
             cl = "parsed-term-differs-from-ast" if c["id"] % 2 == 0 else "round-trip-changes-term"
-            ctx.violation(dict(shape_triggers(t), clause=cl, op=opsig(t), inner=inner_ops(t)),
-                          "text %r parsed as %s, printed %r, re-parsed as %s" % (cases[i]["text"], T.render(info[i]["first"]),
-                                                                               info[i]["text"], T.render(info[i]["back"])),
-                          {"ast": t, "clause": A[i][1], "text": cases[i]["text"]})
+            if cl == "round-trip-changes-term":
+                shapes = (info[i].get("shape", "") or "?").split("|") if t is not None else ["literal"]
+            else:
+                shapes = [ast_mismatch_shape(t, info[i]["first"])]
+            for edge in shapes:
+                ctx.violation(dict(clause=cl, shape=edge, **({"literal": cases[i]["lit"]} if t is None else {})),
+                              "text %r parsed as %s, printed %r, re-parsed as %s; smallest failing subterm: %s" % (
+                                  cases[i]["text"], T.render(info[i]["first"]), info[i]["text"], T.render(info[i]["back"]), edge),
+                              {"ast": t, "clause": A[i][1], "text": cases[i]["text"]})
     # ---- totality: token mutations
     texts = []
     base = semcheck.gen_programs(ctx.seed * 7919 + 171, ctx.pick(80, 800), "strat")
     tok = re.compile(r"\s*([A-Za-z_][A-Za-z0-9_]*|\d+\.\d+|\d+|::|:-|\\\+|[()\[\],.;|]|\S)")
-    junk = ["(", ")", "[", "]", ",", ".", ":-", "::", "\\+", ";", "|", "'", "\"", "0.5", "X", "a", "=", "is", "1.1::", "-", "%", "/*",
+    junk = ["()", "( )", "(,)", "[,]", "(", ")", "[", "]", ",", ".", ":-", "::", "\\+", ";", "|", "'", "\"", "0.5", "X", "a", "=", "is", "1.1::", "-", "%", "/*",
             "0'", "0x", "1e", "..", "\\", "{", "}", "`"]
     srcs = [progs.render(p) for p in base] + [info[i]["text"] + "." for i in list(info)[:ctx.pick(300, 3000)] if info[i].get("text")]
     for t in srcs:
@@ -182,15 +225,68 @@ def run(ctx):
                               "parsing raised %s (%s) at %s\n%s" % (o["error"], o.get("msg"), o["site"], texts[o["id"]]["text"]),
                               {"text": texts[o["id"]]["text"]})
     ctx.sample({"ast": T.render(A[10][0]), "printed": info[10].get("text")})
+    ctx.sample({"literal_text": cases[-7]["text"], "outcome": {k: v for k, v in info[len(cases) - 7].items() if k in ("ok", "stage", "err", "text")}})
     ctx.sample({"mutated_text": texts[3]["text"]})
     ctx.write_evidence("exploration", {
-        "evaluations": ctx.evaluations, "distinct_nontrivial": len(A),
+        "evaluations": ctx.evaluations, "distinct_nontrivial": len({c["text"] for c in cases}),
         "rule": "ASTs over %d binary and %d unary operators, compounds, lists, quoted atoms, strings, numbers, variables "
                 "(operator pairs at depth 1, random trees to depth 3, clauses with operator bodies); every AST is distinct; "
                 "token mutations of generated programs and of printed terms for totality" % (len(BIN), len(UN)),
         "asts": len(A), "mutated_texts": len(texts), "parse_outcomes": outcomes},
         assumptions=["equality of the re-parsed term is decided by TLC (TermAlgebra!Variant)",
                      "totality over all strings is approximated by structured token mutations"])
+
+
+def jkind(x):
+    k = x["t"]
+    if k == "v":
+        return "var"
+    if k == "i":
+        return ("neg" if x["v"] < 0 else "") + "int"
+    if k == "f":
+        return ("neg" if x["v"] < 0 else "") + "float"
+    if k == "s":
+        return "string"
+    if k == "a":
+        return "atom"
+    return "%s/%d" % (T.txt(x["c"]), len(x["a"]))
+
+
+def ast_mismatch_shape(ast, parsed):
+    """signature of an AST that the parser read differently.  '-(number)' anywhere in the AST is the known reading of
+    a parenthesised negative number; otherwise the smallest differing subterm's root and argument kinds."""
+    def has_neg_number(x):
+        if x["t"] != "c":
+            return False
+        if T.txt(x["c"]) == "-" and len(x["a"]) == 1 and (x["a"][0]["t"] in ("i", "f") or has_neg_number(x["a"][0]) and
+                                                           T.txt(x["a"][0]["c"]) == "-" and len(x["a"][0]["a"]) == 1):
+            return True
+        return any(has_neg_number(a) for a in x["a"])
+    if has_neg_number(ast):
+        return "-/1(number)"
+
+    def norm(x):
+        if x["t"] == "v":
+            return "V"
+        if x["t"] == "c":
+            return [x["c"], [norm(a) for a in x["a"]]]
+        return json.dumps(x, sort_keys=True)
+
+    def same_root(x, y):
+        return x["t"] == y["t"] and (x["t"] != "c" or (x["c"] == y["c"] and len(x["a"]) == len(y["a"])))
+    x, y = ast, parsed
+    while same_root(x, y) and x["t"] == "c":
+        nxt = None
+        for a, b in zip(x["a"], y["a"]):
+            if norm(a) != norm(b):
+                nxt = (a, b)
+                break
+        if nxt is None:
+            break
+        x, y = nxt
+    if x["t"] != "c":
+        return jkind(x)
+    return "%s(%s)" % (jkind(x), ",".join(jkind(a) for a in x["a"]))
 
 
 def shape_triggers(t):
